@@ -3,6 +3,7 @@ Properties/C03.lean — two-collection search and database lookups are exact.
 (The LookupDB theorems are in the second half of this file.)
 -/
 import Prs.Proofs.SymDB
+import Prs.Proofs.NeighborLoops
 import Prs.Proofs.LookupDB
 import Prs.Model.Engines
 namespace Prs
@@ -130,5 +131,20 @@ example : (1, 0, 1) ∈ symdelTwoDefault 1 [['C', 'A']] [['D'], ['C']] :=
 example : (0, 0, 0) ∈ lookupDefault ['A', 'C'] false [['C', 'A']] [['C', 'A']] 1 :=
   (C03_lookupdb_exact ['A', 'C'] _ _ 1 (by decide) 0 0 0).2
     ⟨['C', 'A'], ['C', 'A'], rfl, rfl, by simp [lev_self], by simp [lev_self]⟩
+
+/-! ### the neighbour generator LookupDB expands with, as translated from pyrepseq/distance.py on this run -/
+
+/-- `levenshtein_neighbors` of the current source (Generated/NeighborLoops, re-translated on every run) is the generator
+    `lookupDefault` is built on, so `C03_lookupdb_exact`, `C03_edit_ball` … speak about the loops the source contains -/
+theorem C03_source_neighbors [Inhabited α] (A : List α) :
+    (fun x => Generated.levenshtein_neighbors x A) = levNeighbors A :=
+  funext fun x => gen_levenshtein_neighbors_eq A x
+
+theorem C03_source_lookupdb_exact [Inhabited α] (A : List α) (ref qs : List (List α)) (k : Nat)
+    (hA : ∀ r ∈ ref, ∀ c ∈ r, c ∈ A) (q r d : Nat) :
+    (q, r, d) ∈ lookupDB (fun x => Generated.levenshtein_neighbors x A) (fun a b => lev a b) (fun _ => true) false ref qs k ↔
+      ∃ a b, qs[q]? = some a ∧ ref[r]? = some b ∧ lev a b ≤ k ∧ d = lev a b := by
+  rw [C03_source_neighbors]
+  exact C03_lookupdb_exact A ref qs k hA q r d
 
 end Prs
